@@ -7,7 +7,7 @@ set -u
 WT=$1; PID=$2; V=$3; shift 3
 CHECKS=${*:-$PID}
 SCR=/tmp/wt-seed-$$
-OUT=/verif/seeded/$PID$V
+OUT=/verif/seeded/${OUTID:-$PID$V}
 git -C /repo worktree add -q --detach $SCR HEAD || exit 2
 trap 'git -C /repo worktree remove --force $SCR' EXIT
 mkdir -p $OUT
